@@ -123,11 +123,21 @@ def run_property(pid: str, tier: str, seed: int, explain: bool = False) -> int:
                 samples.append({"rule": result.rule, **o})
         selftest = None
         selftest_code = 0
+        sweep = None
         if tier == "thorough":
             from .selftest import run_selftest
 
             selftest_code, selftest = run_selftest(pid, seed)
-            # entry points reaching each finding / confirmed exception
+            # a seeded sample of generic one-edit mutants of the anchor files, analysed with this property's rules:
+            # measures how much of the anchor code the clauses constrain (information, never a verdict)
+            try:
+                from .selftest.sweep import sample_sweep
+
+                sweep = sample_sweep(pid, seed, size=int(os.environ.get("VERIF_SWEEP_SIZE", "48")))
+                print(f"{pid} thorough: mutant sample (seed {seed}): {sweep['reported']} reported, {sweep['engine_gave_up']} "
+                      f"engine gave up, {sweep['silent']} silent of {sweep['sampled']} sampled ({sweep['generated']} generated)")
+            except Exception as exc:  # noqa: BLE001 - a measurement must not turn into a verdict
+                sweep = {"error": f"{type(exc).__name__}: {exc}"[:200]}
         wall = time.time() - started
         # output
         replay_dir = os.path.join(EVIDENCE_DIR, "replay")
@@ -171,6 +181,7 @@ def run_property(pid: str, tier: str, seed: int, explain: bool = False) -> int:
             "calls_unresolved": ctx.unresolved_calls,
             "source_digests": ctx.repo.digest(),
             "self_validation": selftest if selftest is not None else "thorough tier only",
+            "mutant_sample": sweep if tier == "thorough" else "thorough tier only",
             "known_findings_printed": [
                 {"id": e.get("id"), **f.to_json()} for f, e in known_hits
             ],
